@@ -22,7 +22,8 @@ T1 == Ident("m1", TRUE, S(<<49>>))
 T2 == Member("o3", "q", S(<<50>>))
 T3 == Index("o3", "r", S(<<51>>))
 T4 == Ident("m4", FALSE, S(<<52>>))
-Targets == {T1, T2, T3, T4}
+T5 == Ident("$event", TRUE, S(<<53>>))       \* the user's own `$event`: the listener parameter must not capture it (C06)
+Targets == {T1, T2, T3, T4, T5}
 
 AN == Ident("an", FALSE, StrS(<<100, 121, 110>>, "dyn"))
 ArgForms == {<<"none", "", Undefined>>, <<"colon", "title", Undefined>>, <<"str2", "title", Undefined>>,
